@@ -2108,6 +2108,10 @@ func (h *H) runReplay(file string) {
 		e.finish(opNames)
 		done = true
 	}
+	if fh := str(rp, "fork_history"); fh != "" {
+		h.runFork("replay/fork", strings.Fields(fh), true)
+		done = true
+	}
 	if sh := str(rp, "secure_history"); sh != "" {
 		h.runSecure("replay/secure", strings.Fields(sh))
 		done = true
@@ -2175,7 +2179,8 @@ func main() {
 		"keccak-hashed 32-byte keys, 32-byte keys differing only in their last 1..4 nibbles, and rlp(index) keys as DeriveSha builds them; values of length 0(=delete),1,31,32,33,100 and 2..5. " +
 		"Every history is executed on the Go trie with direct oracles (sorted rebuild, reference content for get/iterate/reopen/proofs, altered and truncated proofs) and sent as one `run` line to the extracted model; " +
 		"a history is distinct non-trivial when it contains a commit, reopen or proof. Separate streams: malformed/crafted node encodings through decodeNode and VerifyProof (valid proof nodes with one byte altered/cut/extended, " +
-		"hand-built 2- and 17-element lists with boundary compact keys and reference sizes, wrong arities, trailing garbage), hex/compact key encodings, SecureTrie over keccak keys, DeriveSha against the specification root, Keccak-256 itself."
+		"hand-built 2- and 17-element lists with boundary compact keys and reference sizes, wrong arities, trailing garbage), hex/compact key encodings, SecureTrie over keccak keys, DeriveSha against the specification root, Keccak-256 itself, " +
+		"fork histories (update/delete/hash with shallow copies `cpy := *t` / SecureTrie.Copy taken at random points, mostly of never-hashed nodes; one side is continued, the other must keep content, iteration and root)."
 	c.Assume("trie.Database reference counting / GC (Dereference) is not exercised; nodes are readable from the memory layer or disk")
 	c.Note("VerifyProof on the empty trie: Prove emits no node, so absence cannot be proven for the empty root; reported with the stable signature prove-empty-trie-absence-not-verifiable (theorem C10_empty_trie_absence_proof_refuted)")
 
@@ -2264,6 +2269,9 @@ func main() {
 		}
 	}
 	h.flush()
+
+	// 8. fork discipline: shallow copies of a trie value share nodes; the untouched value keeps its content (fork.go)
+	h.forkCases()
 	h.noteCounts()
 	c.Finish()
 }
